@@ -166,10 +166,12 @@ def run(ctx):
     finally:
         _cleanup_worker_dirs()
     tot = {'functions': 0, 'calls': 0, 'compared': 0, 'out_of_subset': 0, 'outcomes': 0, 'cpp_failed': 0, 'rejected': 0}
+    all_viol = []
     for r in results:
         for k in tot:
             tot[k] += r[k]
-        ctx.merge(r['viol'])
+        all_viol.extend(r['viol'])
+    ctx.merge(attribute_minimal(all_viol))
     samples = []
     for p in (progs[0], progs[len(progs) // 2], progs[-1]):
         samples.append(p.functions[len(p.functions) // 2][1])
@@ -187,6 +189,31 @@ def run(ctx):
         'exhaustive': True,
         'bound': f'<= {2 if ctx.quick else 3} operators; skeleton depth {1 if ctx.quick else 2}',
     }
+
+
+def attribute_minimal(viols):
+    """Expression layer: a failing tree whose operator-class set contains the set of a smaller failing tree of the
+    same failure kind is attributed to that smaller set (minimal failing sets); other violations pass unchanged."""
+    def parts(sig):
+        tag = sig[-1]
+        return frozenset(tag[5:].split('+')) if isinstance(tag, str) and tag.startswith('expr:') else None
+    groups = {}
+    for sig, what, rep in viols:
+        ps = parts(sig)
+        if ps is not None:
+            groups.setdefault(tuple(sig[:-1]), set()).add(ps)
+    minimal = {k: [x for x in v if not any(y < x for y in v)] for k, v in groups.items()}
+    out = []
+    for sig, what, rep in viols:
+        ps = parts(sig)
+        if ps is None:
+            out.append((sig, what, rep))
+            continue
+        base = sorted((m for m in minimal[tuple(sig[:-1])] if m <= ps), key=lambda m: (len(m), sorted(m)))[0]
+        out.append((list(sig[:-1]) + ['expr:' + '+'.join(sorted(base))], what, rep))
+    # simplest first within each signature: shortest source text
+    out.sort(key=lambda v: len(v[1]))
+    return out
 
 
 def pyexprs():
